@@ -877,6 +877,15 @@ def _lineage_of_stored_rows(ctx, chk, f, flow, kind, tabs, ids_n, offs_n, map_n,
             pn = pn.elt          # executemany over a generator of parameter dicts: loop roles come from its generators
         if isinstance(pn, ast.Dict):
             pd = {k.value: v for k, v in zip(pn.keys, pn.values) if isinstance(k, ast.Constant)}
+        if isinstance(pn, (ast.GeneratorExp, ast.ListComp)) and isinstance(pn.elt, (ast.Tuple, ast.List)) \
+                and not any(isinstance(x, ast.Starred) for x in pn.elt.elts) and s.stmt.values is not None and len(s.stmt.values) == len(s.stmt.columns):
+            # executemany over a generator of positional parameter tuples: the k-th `?` is the k-th element
+            pd = {}
+            for col_, v_ in zip(s.stmt.columns, s.stmt.values):
+                if isinstance(v_, tuple) and v_ and v_[0] == "param" and isinstance(v_[1], int) and 0 <= v_[1] < len(pn.elt.elts):
+                    pd[col_] = pn.elt.elts[v_[1]]
+                    pd.setdefault({"zeta_number": "discrete_zeta", "mean_crossing_time": "mean_crossing_time_s"}.get(col_, col_), pn.elt.elts[v_[1]])
+            pd = pd or None
         # by column, whatever the parameters are called (and for positional parameters)
         if not (isinstance(s.params_node, (ast.GeneratorExp, ast.ListComp))):
             cv_ = s.column_values(flow)
